@@ -515,7 +515,9 @@ fn render_module(t: &Tree, m: usize) -> String {
         } else {
             let d: Vec<String> = p.decoy.iter().map(|q| format!("import {};", q.join("."))).collect();
             let d = d.join(" ");
-            match p.decoy_shape % 5 {
+            match p.decoy_shape % 6 {
+                // (5: the decoy is the body of a match arm whose guard holds the use, see below)
+                5 => String::new(),
                 0 => format!("    {{ {d} 0 }};\n"),
                 1 => format!("    if true {{ {d} }}\n"),
                 2 => format!("    let zd = {{ {d} 5 }};\n"),
@@ -523,7 +525,7 @@ fn render_module(t: &Tree, m: usize) -> String {
                 _ => format!("    {{ {d} }};\n"),
             }
         };
-        let decoy_first = p.decoy_shape / 5 % 2 == 0;
+        let decoy_first = p.decoy_shape / 6 % 2 == 0;
         let mut tail = "r".to_string();
         if !p.sibling_imports.is_empty() {
             let sib: Vec<String> = p.sibling_imports.iter().map(|q| format!("import {};", q.join("."))).collect();
@@ -594,7 +596,14 @@ fn render_module(t: &Tree, m: usize) -> String {
             if decoy_first {
                 s.push_str(&decoy_block);
             }
+            let guard_form = !p.decoy.is_empty() && p.decoy_shape % 6 == 5;
             match p.shape % 4 {
+                _ if guard_form => {
+                    // the use stands in the examinee and in the guard of an arm whose body imports a
+                    // decoy: the guard is outside that body
+                    let d: Vec<String> = p.decoy.iter().map(|q| format!("import {};", q.join("."))).collect();
+                    let _ = writeln!(s, "    let r = match Option.Some({use_expr}) {{\n        Some(z) if z == {use_expr} => {{ {} z }}\n        _ => -1,\n    }};", d.join(" "));
+                }
                 // the use is the value of the function body itself
                 1 if !p.import_after_use => tail = use_expr.clone(),
                 2 if !p.import_after_use => tail = zmatch(&use_expr),
